@@ -358,3 +358,30 @@ func RunExhaustive[C any](t *testing.T, p Prop[C], enumerate func(yield func(C) 
 		return false
 	})
 }
+
+// FuzzProp adapts a property to Go's coverage-guided fuzzer (thorough tier only): the fuzzer's bytes are
+// rapid's bit stream, so generator and oracle are the ones of the rapid test `replayTest`, which is also
+// the test a saved failing case is replayed with.
+func FuzzProp[C any](property, fuzzName, replayTest string, gen func(*rapid.T) C, check func(C, *CaseInfo, *Stats) error) func(*rapid.T) {
+	st := NewStats(property, fuzzName, "")
+	return func(t *rapid.T) {
+		c := gen(t)
+		info := &CaseInfo{}
+		err := check(c, info, st)
+		if err == nil {
+			return
+		}
+		v, ok := err.(*Violation)
+		if !ok {
+			t.Skip("infrastructure: " + err.Error()) // never a verdict
+		}
+		if IsKnown(property, v.Sig) {
+			return
+		}
+		cj, _ := json.Marshal(c)
+		rf := replayFile{Property: property, Test: replayTest, Sig: v.Sig, Msg: v.Msg, Case: cj}
+		b, _ := json.MarshalIndent(rf, "", " ")
+		_ = os.WriteFile(filepath.Join(outDir(), fuzzName+".fail.json"), b, 0o644)
+		t.Fatalf("VIOLATION %v", v)
+	}
+}
